@@ -44,7 +44,7 @@ RULE = (
     "Hypothesis draws a contractive coupled system (2-5 disciplines, output sizes 1-3, 1-3 design inputs of size 1-2, "
     "rings, several strongly connected components, weakly coupled pre/post and self-coupled disciplines, tanh terms, "
     "non-coupling outputs, dense, sparse or matrix-free JacobianOperator partial Jacobians, optionally disciplines in "
-    "residual/state form, optionally design inputs whose whole effect is scaled by 1e-10 or 1e-13), input "
+    "residual/state form (state solved by the discipline, or by a Newton MDA), feed-forward systems one case in five, optionally design inputs whose whole effect is scaled by 1e-10 or 1e-13), input "
     "values, an MDA (GaussSeidel, Jacobi, NewtonRaphson, MDAChain with either inner MDA and chain_linearize on/off; "
     "tolerance 1e-14), a linearisation configuration (mode auto/direct/adjoint, matrix or linear operator, LU on/off, "
     "linear solver among DEFAULT/LGMRES/GMRES/BICGSTAB/BICG/CGS/GCROT/TFQMR at tolerance 1e-12) and 1-3 successive "
@@ -69,7 +69,9 @@ ASSUMPTIONS = [
     "inconclusive for that solver (class 'inconclusive:krylov_breakdown'), CG is not used (needs a symmetric matrix)",
     "LU factorisation is requested with the sparse matrix type only (documented ValueError with linear operators, checked)",
     "MDANewtonRaphson is given all-strongly-coupled systems only (others reach it through MDAChain)",
-    "residual/state-form disciplines solve their own state equations (state_equations_are_solved=True)",
+    "residual/state-form disciplines solve their own state equations (state_equations_are_solved=True) except, when drawn, in "
+    "single-ring systems under MDANewtonRaphson (alone or inside an MDAChain), where the MDA resolves the state from the "
+    "residual and its partials (state_equations_are_solved=False)",
 ]
 
 MODES = ["auto", "direct", "adjoint"]
@@ -80,8 +82,11 @@ MDAS = ["MDAGaussSeidel", "MDAJacobi", "MDANewtonRaphson", "MDAChain", "MDAChain
 
 @st.composite
 def cases(draw):
-    system = draw(coupled_systems(state_form=draw(st.booleans()), operator_jacobians=True,
-                                  input_scales=draw(st.integers(0, 2)) == 0))
+    shape = draw(st.sampled_from(["any", "any", "any", "ring", "feed_forward", "state_ring"]))
+    system = draw(coupled_systems(state_form=True if shape == "state_ring" else draw(st.booleans()), operator_jacobians=True,
+                                  input_scales=draw(st.integers(0, 2)) == 0,
+                                  all_strong=True if shape in ("ring", "state_ring") else None, acyclic=shape == "feed_forward",
+                                  max_disc=3 if shape == "feed_forward" else 5))
     values = draw(input_values(system))
     n_in = len(system["x"])
     out_names = [o["name"] for d in system["discs"] for o in d["outputs"]]
@@ -91,16 +96,25 @@ def cases(draw):
             "outputs": st.lists(st.integers(0, len(out_names) - 1), min_size=1, max_size=min(len(out_names), 4), unique=True),
             "dependent": st.sampled_from([True, True, True, False]),
         }), min_size=1, max_size=3))
-    matrix = draw(st.sampled_from(["matrix", "matrix", "linear_operator"]))
+    matrix = draw(st.sampled_from(["matrix", "matrix", "linear_operator"] if shape != "feed_forward" else ["matrix"] * 3 + ["linear_operator"]))
+    # LU with a linear operator is a documented rejection: kept rare; feed-forward systems (integer -I blocks only in
+    # the residual Jacobian) get the LU option more often
+    if matrix != "matrix":
+        lu = draw(st.integers(0, 7)) == 0
+    else:
+        lu = draw(st.booleans()) or (shape == "feed_forward" and draw(st.booleans()))
+    newton_ring = shape == "state_ring"
     return {
         "system": system, "values": values, "requests": requests,
-        "mda": draw(st.sampled_from(MDAS)),
-        "inner": draw(st.sampled_from(["MDAJacobi", "MDAGaussSeidel", "MDANewtonRaphson"])),
+        # residual/state-form disciplines leave their state to the MDA (state_equations_are_solved=False) where an MDA
+        # able to resolve it is used: a single ring under MDANewtonRaphson (directly or as the inner MDA of an MDAChain)
+        "state_unsolved": True if newton_ring else draw(st.booleans()),
+        "mda": draw(st.sampled_from(MDAS if not newton_ring else ["MDANewtonRaphson", "MDAChain"])),
+        "inner": draw(st.sampled_from(["MDAJacobi", "MDAGaussSeidel", "MDANewtonRaphson"] if not newton_ring else ["MDANewtonRaphson"])),
         "chain_linearize": draw(st.booleans()),
         "mode": draw(st.sampled_from(MODES)),
         "matrix": matrix,
-        # LU with a linear operator is a documented rejection: kept rare
-        "lu": draw(st.booleans()) if matrix == "matrix" else draw(st.integers(0, 7)) == 0,
+        "lu": lu,
         "solver": draw(st.sampled_from(LINEAR_SOLVERS)),
         "final": draw(st.sampled_from(["none", "none", "new_point", "all_pairs"])),
         "delta": {v["name"]: [draw(st.sampled_from([-0.5, 0.0, 0.25, 1.0])) for _ in range(v["size"])] for v in system["x"]},
@@ -352,7 +366,14 @@ def _case_derivatives(p, ctx):
         ctx.cls("no_design_input_is_read")
         return
     order = [i for i in p["perm"] if i < info["n_disc"]]
-    discs_all = build_disciplines(model, p["values"], p["grammar"])
+    newton = p["mda"] == "MDANewtonRaphson" or (p["mda"] == "MDAChain" and p["inner"] == "MDANewtonRaphson")
+    unsolved = bool(p.get("state_unsolved")) and bool(model.state_of) and newton and info["all_strong"] and info["n_scc_ge2"] == 1 \
+        and info["largest_scc"] == info["n_disc"]
+    if unsolved:
+        ctx.cls("state_resolved_by_the_mda")
+    if info["n_scc_ge2"] == 0 and info["n_self_coupled"] == 0:
+        ctx.cls("feed_forward_system")
+    discs_all = build_disciplines(model, p["values"], p["grammar"], state_solved=not unsolved)
     discs = [discs_all[i] for i in order]
     lu_with_operator = p["lu"] and p["matrix"] == "linear_operator"
     mda, tag = build_mda(p, discs, info)
